@@ -135,10 +135,14 @@ def build_atoms(a: dict):
         nmol = a.get("nmol", 2)
         nfw = a.get("framework", 0)
         syms, pos, labels = [], [], []
-        for f in range(nfw):
-            syms.append("Cu")
-            pos.append(rng.uniform(0.05, 0.95, 3) @ cell)
-            labels.append(-1)
+        def add_framework():
+            for f in range(nfw):
+                syms.append("Cu")
+                pos.append(rng.uniform(0.05, 0.95, 3) @ cell)
+                labels.append(-1)
+
+        if not a.get("fw_last"):
+            add_framework()
         tmpl = molecule_template(ms)
         for m in range(nmol):
             c = rng.uniform(0.15, 0.85, 3) @ cell
@@ -146,6 +150,8 @@ def build_atoms(a: dict):
                 syms.append(s)
                 pos.append(c + p)
                 labels.append(m)
+        if a.get("fw_last"):
+            add_framework()
         labels = np.array(labels)
         pos = np.array(pos)
         n = len(syms)
@@ -153,6 +159,9 @@ def build_atoms(a: dict):
         raise ValueError(kind)
     atoms = Atoms(syms, positions=np.asarray(pos), cell=cell, pbc=pbc)
     n = len(atoms)
+    if a.get("spectators_last"):
+        labels = np.array(labels)
+        labels[-int(a["spectators_last"]) :] = -1
     for ex in a.get("extras", []):
         if ex == "tags":
             atoms.set_tags(rng.integers(0, 4, n))
@@ -255,6 +264,24 @@ def build_op(o):
     raise ValueError(t)
 
 
+def mod_labels(labels, mod):
+    """Relabelings that keep the particle partition: 'gap' (non-contiguous), 'rev' (descending / unsorted),
+    and spectator patterns for displacement moves: 'someneg' (every other particle -1), 'allneg' (nothing eligible)."""
+    labels = np.array(labels, dtype=int)
+    if not mod:
+        return labels
+    pos = labels >= 0
+    if mod == "gap":
+        labels[pos] = 3 * labels[pos] + 2
+    elif mod == "rev":
+        labels[pos] = labels[pos].max() - labels[pos] if pos.any() else labels[pos]
+    elif mod == "someneg":
+        labels[pos & (labels % 2 == 1)] = -1
+    elif mod == "allneg":
+        labels[:] = -1
+    return labels
+
+
 def build_move(m: dict, labels, cache: dict):
     """m: {"t": "D"|"E"|"C"|"H"|"+"|"*"|"ref", ...}; cache maps ids to already built moves."""
     from quansino.integrators.displacement import Verlet
@@ -278,9 +305,9 @@ def build_move(m: dict, labels, cache: dict):
     elif t == "*":
         out = build_move(m["part"], labels, cache) * m["n"]
     elif t == "D":
-        out = DisplacementMove(np.array(m.get("labels", labels)), build_op(m.get("op")), apply_constraints=m.get("apply_constraints", True))
+        out = DisplacementMove(mod_labels(np.array(m.get("labels", labels)), m.get("labelmod")), build_op(m.get("op")), apply_constraints=m.get("apply_constraints", True))
     elif t == "E":
-        out = ExchangeMove(np.array(m.get("labels", labels)), build_op(m.get("op")), bias_towards_insert=m.get("bias", 0.5))
+        out = ExchangeMove(mod_labels(np.array(m.get("labels", labels)), m.get("labelmod")), build_op(m.get("op")), bias_towards_insert=m.get("bias", 0.5))
     elif t == "C":
         out = CellMove(build_op(m.get("op")), scale_atoms=m.get("scale", True))
     elif t == "P":
